@@ -1238,9 +1238,12 @@ def info(prop):
     from . import d12_offsets_vc as D
     d = _info_bounded(prop)
     h = D.deductive_info()
-    d["functions"] = [h["functions"][2]] + d.get("functions", [])
-    d["stubs"] = h["stubs"] + d.get("stubs", [])
-    d["explanation"] = ("Deductive: System._molecules_ordered_all_gen verified on its AST for block lists of any length (every yielded molecule spans exactly its "
+    from . import d11_recognition_vc as R
+    hr = R.deductive_info()
+    d["functions"] = [h["functions"][2]] + hr["functions"] + d.get("functions", [])
+    d["stubs"] = h["stubs"] + hr["stubs"] + d.get("stubs", [])
+    d["assumptions"] = hr["assumptions"] + d.get("assumptions", [])
+    d["explanation"] = (hr["explanation"] + "Deductive: System._molecules_ordered_all_gen verified on its AST for block lists of any length (every yielded molecule spans exactly its "
                         "species' residue count; molecules of a block abut from the block start). " + d.get("explanation", ""))
     d["trusted_base"] = ["z3 5.1", "vf/pyvc.py + vf/seq.py"] + d.get("trusted_base", [])
     return d
@@ -1248,7 +1251,8 @@ def info(prop):
 
 def tasks(prop, tier, seed):
     from . import d12_offsets_vc as D
-    return list(D.deductive_tasks_c11(prop, tier, seed)) + list(_tasks_bounded(prop, tier, seed))
+    from . import d11_recognition_vc as R
+    return list(D.deductive_tasks_c11(prop, tier, seed)) + list(R.deductive_tasks(prop, tier, seed)) + list(_tasks_bounded(prop, tier, seed))
 
 
 def replay(prop, cex):
